@@ -40,6 +40,52 @@ func factsAt(b *ssa.BasicBlock) []edgeFact {
 	return out
 }
 
+// conjunctFacts expands the facts known at block b with the conjuncts of
+// short-circuit conditions that go/ssa materialised as a phi
+// (`c := x && y` becomes phi[false, y]): when such a phi is known true, its
+// last conjunct is true and so is every condition on the way to the block that
+// evaluated it.
+func conjunctFacts(b *ssa.BasicBlock) []edgeFact {
+	var out []edgeFact
+	seen := map[*ssa.BasicBlock]bool{}
+	var expand func(f edgeFact, depth int)
+	expand = func(f edgeFact, depth int) {
+		out = append(out, f)
+		c, truth := normFact(f)
+		ph, ok := c.(*ssa.Phi)
+		if !ok || !truth || depth > 4 {
+			return
+		}
+		// all edges but one are the constant false
+		var last ssa.Value
+		var lastPred *ssa.BasicBlock
+		for i, e := range ph.Edges {
+			if k, isC := e.(*ssa.Const); isC && k.Value != nil && k.Value.Kind() == constant.Bool && !constant.BoolVal(k.Value) {
+				continue
+			}
+			if last != nil {
+				return
+			}
+			last = e
+			lastPred = ph.Block().Preds[i]
+		}
+		if last == nil || lastPred == nil {
+			return
+		}
+		expand(edgeFact{last, true, lastPred}, depth+1)
+		if !seen[lastPred] {
+			seen[lastPred] = true
+			for _, g := range factsAt(lastPred) {
+				expand(g, depth+1)
+			}
+		}
+	}
+	for _, f := range factsAt(b) {
+		expand(f, 0)
+	}
+	return out
+}
+
 // atoms decomposes a fact into atomic (cond,truth) pairs through NOT.
 func normFact(f edgeFact) (ssa.Value, bool) {
 	c, t := f.cond, f.truth
